@@ -27,7 +27,8 @@ K_COMP = ["ampere_sgemm_128x64_nn", "void at::native::vectorized_elementwise_ker
           "sm80_xmma_gemm_f32f32", "void cutlass::Kernel<cutlass_80_tensorop>(Params)",
           "void at::native::vectorized_elementwise_kernel<4, at::native::MulFunctor<float> >(int, float)"]
 K_COMM = ["ncclKernel_AllReduce_RING_LL_Sum_float(ncclWorkElem)", "ncclDevKernel_AllGather_RING_LL(ncclDevComm*)"]
-K_MEMCPY = ["Memcpy HtoD (Pageable -> Device)", "Memcpy DtoH (Device -> Pageable)", "Memcpy DtoD (Device -> Device)"]
+K_MEMCPY = ["Memcpy HtoD (Pageable -> Device)", "Memcpy DtoH (Device -> Pageable)", "Memcpy DtoD (Device -> Device)",
+            "Memcpy HtoD (Pinned -> Device)"]      # two full names of one copy type
 K_MEMSET = ["Memset (Device)"]
 KERNEL_LAUNCHES = ["cudaLaunchKernel", "cudaLaunchKernelExC", "cuLaunchKernel"]
 OTHER_RUNTIME = ["cudaMalloc", "cudaStreamIsCapturing", "cudaGetLastError"]
